@@ -44,7 +44,7 @@ func VerifC16_UpdateParams() {
 // the defaults end in success or an ordinary error - never a panic.
 func VerifC16_Consumers() {
 	verifExpect("ok")
-	e := newCsEnvFee(true, verifDenomAny("pcfDenom", csStd)) // symbolic params with Validate()==nil assumed
+	e := newCsEnvWith(true, verifDenomAny("pcfDenom", csStd), true) // ANY params with Validate()==nil assumed
 	one, w := big.NewInt(1), verifPow2(40)
 	e.seedPool("btc", verifIntIn("S", one, w), verifIntIn("T", one, w), verifIntIn("L", one, w))
 	for _, d := range []string{csStd, "btc", "eth", "uother"} {
